@@ -6,6 +6,7 @@ pub mod c01;
 pub mod c02;
 pub mod c03;
 pub mod c04;
+pub mod c05;
 pub mod c06;
 pub mod c15;
 pub mod c17;
@@ -24,6 +25,7 @@ pub fn run(id: &str, tier: Tier) -> Option<Outcome> {
         "C02" => c02::run(tier),
         "C03" => c03::run(tier),
         "C04" => c04::run(tier),
+        "C05" => c05::run(tier),
         "C06" => c06::run(tier),
         "C15" => c15::run(tier),
         "C17" => c17::run(tier),
@@ -40,6 +42,7 @@ pub fn replay(id: &str, replay: &serde_json::Value) -> Option<Vec<crate::mc::Vio
         "C06" if replay["model"] == "C06" => Some(histcommon::replay_hist(&c06::model(Tier::Quick, replay["world"].as_str().unwrap_or("")), replay)),
         "C03" => Some(histcommon::replay_hist(&c03::model_for(replay), replay)),
         "C04" => Some(c04::replay(replay)),
+        "C05" => Some(c05::replay(replay)),
         "C15" => Some(c15::replay(replay)),
         "C17" => Some(histcommon::replay_hist(&c17::model(Tier::Thorough, replay["world"].as_str().unwrap_or("")), replay)),
         _ => None,
